@@ -41,7 +41,7 @@ const SIG_ERRNAME: &str = "error-name-not-heck-fixpoint";
 // IDL generation
 
 const TYPE_NAMES: &[&str] = &["Info", "Item", "URLInfo", "IPAddr", "Point2D", "State", "Mode", "HTTPReply", "UserRecord", "Kind"];
-const METHOD_NAMES: &[&str] = &["Get", "GetURL", "Get2FA", "ListAll", "Move", "Type", "Ping", "SetValue", "DoIt", "Try", "GetInfo", "X", "Loop", "ReloadHTTPConfig"];
+const METHOD_NAMES: &[&str] = &["Get", "GetURL", "Get2FA", "ListAll", "Move", "Type", "Ping", "SetValue", "DoIt", "Try", "GetInfo", "X", "Loop", "ReloadHTTPConfig", "Sha256sum", "Get2fa", "Ipv4addr", "Md5Sum", "GetX509cert", "V2", "Utf8Decode"];
 const ERROR_NAMES: &[&str] = &["NotFound", "NotOK", "Failed", "IOError", "Bad2", "PermissionDenied", "E", "TooManyURLs"];
 const FIELD_NAMES: &[&str] = &["name", "value", "userId", "user_id", "type", "self", "URL", "x2", "fooBar", "match", "id", "items", "async", "try", "is_ok", "super", "box", "count", "a_b_c", "fn", "sha_256", "utf_8", "arg_0", "x_2", "a1b2", "url", "foo_bar", "HTTPCode", "http_code", "isOk",
     // names the proxy / derive expansions are likely to use for their own locals
@@ -160,7 +160,8 @@ fn gen_fields_with(rng: &mut Rng, max: usize, customs: &[String], forced: Option
     }
     for _ in 0..n {
         if let Some(name) = pick_unique(rng, FIELD_NAMES, &mut used, |s| s.to_snake_case()) {
-            out.push(Fld { name, ty: gen_ty(rng, 2, customs), comments: if rng.chance(15) { vec!["a field".into()] } else { vec![] } });
+            let depth = if rng.chance(20) { 3 } else { 2 };
+            out.push(Fld { name, ty: gen_ty(rng, depth, customs), comments: if rng.chance(15) { vec!["a field".into()] } else { vec![] } });
         }
     }
     out
@@ -257,6 +258,12 @@ pub fn systematic_ifaces(first_idx: usize) -> Vec<(usize, Iface)> {
         ("MapArr", |t| Ty::Map(Box::new(Ty::Arr(Box::new(t))))),
         ("ArrOpt", |t| Ty::Arr(Box::new(Ty::Opt(Box::new(t))))),
         ("ArrMap", |t| Ty::Arr(Box::new(Ty::Map(Box::new(t))))),
+        // three levels
+        ("ArrArrArr", |t| Ty::Arr(Box::new(Ty::Arr(Box::new(Ty::Arr(Box::new(t))))))),
+        ("ArrArrOpt", |t| Ty::Arr(Box::new(Ty::Arr(Box::new(Ty::Opt(Box::new(t))))))),
+        ("ArrArrMap", |t| Ty::Arr(Box::new(Ty::Arr(Box::new(Ty::Map(Box::new(t))))))),
+        ("MapArrMap", |t| Ty::Map(Box::new(Ty::Arr(Box::new(Ty::Map(Box::new(t))))))),
+        ("OptMapArr", |t| Ty::Opt(Box::new(Ty::Map(Box::new(Ty::Arr(Box::new(t))))))),
     ];
     let mut out = Vec::new();
     for (wi, (wname, w)) in wrappers.iter().enumerate() {
